@@ -1180,3 +1180,45 @@ def r83(ctx: Ctx) -> RuleReport:
                 rep.violation(k2, fi.loc(sb), f'`{norm(sb)}` can be evaluated for a POP datum (a Pop object is not subscriptable): encode raises TypeError for a graph '
                               f'whose pending data contain a POP')
     return rep
+
+
+# ---------------------------------------------------------------------------------------------
+@rule('R97', 'in _configure_node a triple that had to be turned around never opens a nested node (its Push was recorded for the other direction)')
+def r97(ctx: Ctx) -> RuleReport:
+    rep = RuleReport('R97', r97.title, floor=1)
+    fi = ctx.repo.func(L, '_configure_node')
+    cfg = CFG(fi.node)
+    pm = ctx.repo.parent_map(fi.node)
+    recs = [c for c, ts in ctx.cg.calls_in(fi) if any(t.kind == 'func' and t.func.fq == fi.fq for t in ts)]
+    turns = [n for n in walk_local(fi.node) if isinstance(n, ast.Assign) and isinstance(n.value, ast.Call) and isinstance(n.value.func, ast.Attribute)
+             and n.value.func.attr == 'invert' and 'model' in norm(n.value.func.value)]
+    if not recs or not turns:
+        rep.undecided(f'{fi.fq}: the unexpected-inversion arm (model.invert) and the recursive call are found', fi.loc(), f'{len(turns)} inversions, {len(recs)} recursive calls')
+        return rep
+    # the flag that guards the recursion
+    flags = set()
+    for c in recs:
+        from ..resolve import facts_ex
+        for f, pol in facts_ex(ctx, fi, c):
+            if pol and f.isidentifier() and f not in ('True', 'data'):
+                flags.add(f)
+    if not flags:
+        rep.undecided(f'{fi.fq}: the recursive call is guarded by the push flag of the datum', fi.loc(recs[0]), 'no simple flag among the facts of the call')
+        return rep
+    for t in turns:
+        tn = cfg.node_of(t)
+        for c in recs:
+            cn = owner_node(cfg, pm, c)
+            key = f'{fi.fq}: after `{norm(t)[:50]}` the triple cannot reach `{norm(c)[:40]}` with its old push flag'
+            clears = {nd.id for nd in cfg.nodes if nd.kind == 'stmt' and isinstance(nd.ast, ast.Assign) and any(isinstance(x, ast.Name) and x.id in flags for x in nd.ast.targets)
+                      and isinstance(nd.ast.value, ast.Constant) and nd.ast.value.value is False}
+            # a path from the inversion to the recursion that avoids every `flag = False` and does not start a new datum
+            loop_heads = {nd.id for nd in cfg.nodes if nd.kind == 'loophead'}
+            path = cfg.path_avoiding([(tn, None)], {cn}, lambda nd: nd.id in clears or nd.id in loop_heads)
+            if path:
+                rep.violation(key, fi.loc(t), f'the flag {sorted(flags)} survives the inversion ({" -> ".join(repr(cfg.nodes[x]) for x in path[-4:])[:160]}): the Push marker was recorded for the '
+                              f'triple as written, naming the variable that is now the *source*; after turning the triple round its target (possibly a constant such as "-") is opened as a node: '
+                              f'(a :polarity (-)) is written, which decodes with an extra variable')
+            else:
+                rep.ok(key, fi.loc(t))
+    return rep
